@@ -268,10 +268,18 @@ class ExcelInPython:
     def _match(self, lookup_value, lookup_array: List, match_type: int = 0):
         lookup_value_type = int if isinstance(lookup_value, self.EmptyCell) else type(lookup_value)
 
+        def comparable(value):
+            # целые и дробные числа - значения одного вида (20 и 20.0 равны, 25.5 лежит между 20 и 30)
+            if isinstance(value, self.EmptyCell):
+                return False
+            if isinstance(lookup_value, (int, float)):
+                return isinstance(value, (int, float))
+            return isinstance(value, lookup_value_type)
+
         match match_type:
             case 0:
                 for index, value in enumerate(lookup_array):
-                    if isinstance(value[0], self.EmptyCell) or not isinstance(value[0], lookup_value_type):
+                    if not comparable(value[0]):
                         continue
                     if value[0].lower() == lookup_value.lower() if isinstance(value[0], str) else value[0] == lookup_value:
                         return index + 1
@@ -279,7 +287,7 @@ class ExcelInPython:
             case match_type if match_type > 0:
                 last_valid_index = '#N/A'
                 for index, value in enumerate(lookup_array):
-                    if isinstance(value[0], self.EmptyCell) or not isinstance(value[0], lookup_value_type):
+                    if not comparable(value[0]):
                         continue
                     if value[0].lower() <= lookup_value.lower() if isinstance(value[0], str) else value[0] <= lookup_value:
                         last_valid_index = index + 1
@@ -289,7 +297,7 @@ class ExcelInPython:
             case match_type if match_type < 0:
                 last_valid_index = '#N/A'
                 for index, value in enumerate(lookup_array):
-                    if isinstance(value[0], self.EmptyCell) or not isinstance(value[0], lookup_value_type):
+                    if not comparable(value[0]):
                         continue
                     if value[0].lower() >= lookup_value.lower() if isinstance(value[0], str) else value[0] >= lookup_value:
                         last_valid_index = index + 1
